@@ -1031,7 +1031,8 @@ fn emit_item(idx: usize, cfg: &Config, wit: &str) -> Result<(String, ItemOut)> {
                     if kind == "constructor" { "new".to_string() } else { rust_ident(f.item_name()) }
                 ),
             };
-            let args: Vec<String> = (0..f.params.len()).map(|i| format!("::bn_rt::Build::build(&items[{i}])")).collect();
+            let args: Vec<String> = (0..f.params.len()).map(|i| format!("bn_a{i}")).collect();
+            let lets: String = (0..f.params.len()).map(|i| format!("let bn_a{i} = ::bn_rt::Build::build(&items[{i}]); ")).collect();
             if is_async {
                 // C08: (1) a blocking driver on the REAL `block_on`, dropping the call's future after the scripted
                 // number of `Pending`s; (2) an async driver for use inside async export stubs
@@ -1061,7 +1062,7 @@ fn emit_item(idx: usize, cfg: &Config, wit: &str) -> Result<(String, ItemOut)> {
             }
             writeln!(
                 glue,
-                "fn bn_drive_{dk}(t: &::bn_rt::Term, keep: bool) -> String {{ let items = t.items(); assert_eq!(items.len(), {}); let r = {callee}({}); let mut s = ::bn_rt::harness(|| {{ let mut s = String::new(); ::bn_rt::Show::show(&r, &mut s); s }}); if keep {{ let k = ::bn_rt::stash(Box::new(r)); s = ::bn_rt::harness(|| format!(\"{{s}} #{{k}}\")); }} else {{ drop(r); }} ::bn_rt::release_keep(); s }}",
+                "fn bn_drive_{dk}(t: &::bn_rt::Term, keep: bool) -> String {{ let items = t.items(); assert_eq!(items.len(), {}); {lets}::bn_rt::phase_mark(\"args-built\"); let r = {callee}({}); let mut s = ::bn_rt::harness(|| {{ let mut s = String::new(); ::bn_rt::Show::show(&r, &mut s); s }}); if keep {{ let k = ::bn_rt::stash(Box::new(r)); s = ::bn_rt::harness(|| format!(\"{{s}} #{{k}}\")); }} else {{ drop(r); }} ::bn_rt::release_keep(); s }}",
                 f.params.len(),
                 args.join(", ")
             )
